@@ -65,6 +65,65 @@ def gen_protocol(rng):
     return f"(mkPCase {cname} {plist(init, keys)} [" + "; ".join(ops) + "])", {"kind": kind, "ops": ops}, fails
 
 
+def gen_nested(rng):
+    """one set_params call on an estimator with sub-estimators - own parameters, a module replacement and nested values
+    (valid, out of range, unknown) in random order - for corr/RunParamsN.v"""
+    import artlib
+    FK = ["rho", "alpha", "beta"]
+    vals = [Fraction(0), Fraction(1, 4), Fraction(1, 2), Fraction(3, 4), Fraction(1), Fraction(3, 2), Fraction(-1, 4)]
+    fpar = lambda: {"rho": rng.choice([Fraction(1, 4), Fraction(1, 2), Fraction(3, 4)]), "alpha": rng.choice([Fraction(0), Fraction(1, 8)]), "beta": rng.choice([Fraction(1), Fraction(1, 2)])}
+    mkf = lambda p_: artlib.FuzzyART(**{k: float(v) for k, v in p_.items()})
+    kind = rng.choice(["DV", "BART"])
+    subs0 = {"base_module": fpar()} if kind == "DV" else {"module_a": fpar(), "module_b": fpar()}
+    own0 = {"rho_lower_bound": Fraction(1, 8)} if kind == "DV" else {"eta": Fraction(1, 2)}
+    with contextlib.redirect_stdout(io.StringIO()):
+        if kind == "DV":
+            est = artlib.DualVigilanceART(mkf(subs0["base_module"]), float(own0["rho_lower_bound"]))
+        else:
+            est = artlib.BARTMAP(mkf(subs0["module_a"]), mkf(subs0["module_b"]), eta=float(own0["eta"]))
+    kw, coq = {}, []
+    mods = list(subs0)
+    for _ in range(rng.choice([1, 2, 2, 3, 4])):
+        r = rng.random()
+        if r < 0.2:
+            k = rng.choice(list(own0) + ["nope"]) if rng.random() < 0.3 else list(own0)[0]
+            if k in kw:
+                continue
+            v = rng.choice(vals)
+            kw[k] = float(v); coq.append(f'AOwn Q "{k}" {q(v)}')
+        elif r < 0.45:
+            m = rng.choice(mods)
+            if m in kw:
+                continue
+            p_ = fpar()
+            kw[m] = mkf(p_); coq.append(f'ARepl Q "{m}" {plist(p_, FK)}')
+        else:
+            m = rng.choice(mods + ["module_c"]) if rng.random() < 0.1 else rng.choice(mods)
+            k = rng.choice(FK + ["nope"]) if rng.random() < 0.2 else rng.choice(FK)
+            if f"{m}__{k}" in kw:
+                continue
+            v = rng.choice(vals)
+            kw[f"{m}__{k}"] = float(v); coq.append(f'ANest Q "{m}" "{k}" {q(v)}')
+    if not kw:
+        return None
+    ok = True
+    try:
+        with contextlib.redirect_stdout(io.StringIO()):
+            est.set_params(**kw)
+    except Exception:
+        ok = False
+    own1 = {k: Fraction(float(est.params[k])) for k in own0}
+    subs1 = {m: {k: Fraction(float(getattr(est, m).params[k])) for k in FK} for m in mods}
+    sub_coq = lambda d_: "[" + "; ".join(f'("{m}", {plist(d_[m], FK)})' for m in mods) + "]"
+    case = (f"(mkNCase {'NDV' if kind == 'DV' else 'NBART'} {plist(own0, list(own0))} {sub_coq(subs0)} [" + "; ".join(coq) + f"] {'true' if ok else 'false'} "
+            f"{plist(own1, list(own0))} {sub_coq(subs1)})")
+    summ = {"kind": "nested set_params on " + ("DualVigilanceART(FuzzyART)" if kind == "DV" else "BARTMAP(FuzzyART, FuzzyART)"),
+            "own": {k: str(v) for k, v in own0.items()}, "modules": {m: {k: str(v) for k, v in d_.items()} for m, d_ in subs0.items()},
+            "call": [c.replace(" Q ", " ") for c in coq], "accepted": ok,
+            "own_after": {k: str(v) for k, v in own1.items()}, "modules_after": {m: {k: str(v) for k, v in d_.items()} for m, d_ in subs1.items()}}
+    return case, summ
+
+
 # ------------------------------------------------------------------ implementation-side oracle
 def rep(name, what, extra=None):
     return {"signature": f"{name}/{what}", "text": what, "replay": dict({"estimator": name}, **(extra or {}))}
@@ -357,16 +416,25 @@ def main():
         fails.extend(twins_oracle(rng))
         fails.extend(ownership_oracle(rng))
     codes, bad = flow.coq_corr("C19", "RunParams", strs, shard=200, check_fn="pcheck", extra_imports="From Coq Require Import String.\nOpen Scope string_scope.\n")
-    for b in bad:
+    rng_n = C.make_rng(seed, "C19-nested")
+    nstrs, nsumm = [], []
+    for _ in range(400 if tier == "quick" else 4000):
+        r = gen_nested(rng_n)
+        if r:
+            nstrs.append(r[0]); nsumm.append(r[1])
+    ncodes, nbad = flow.coq_corr("C19n", "RunParamsN", nstrs, shard=200, check_fn="ncheck", extra_imports="From Coq Require Import String.\nFrom ART Require Import Params Params_nested.\nOpen Scope string_scope.\n")
+    for b in bad + nbad:
         v.notes.append("coq shard failed: " + b[-600:])
-    flow.decide(v, "C19", gate_ok, ob, list(zip(codes, summ)), fails, None)
+    flow.decide(v, "C19", gate_ok, ob, list(zip(codes, summ)) + list(zip(ncodes, nsumm)), fails, None)
     v.cov.update({
         "evaluations": n + 2 * m, "distinct_nontrivial": len(set(C.case_hash(s) for s in summ)),
         "rule": "random get/set/attribute sequences on Fuzzy/ART1/ART2-A/Hypersphere (valid, out-of-range and unknown names); twins, clone, no-op, rejection on 12 estimator kinds; "
                 "mutation, deepcopy/pickle continuation and interleaved instances on 12 estimator kinds; non-trivial = distinct protocol sequence",
-        "traces_validated_against_impl": sum(1 for x in codes if x == 0), "samples": summ[:1]})
+        "traces_validated_against_impl": sum(1 for x in codes + ncodes if x == 0), "nested_set_params_calls": len(nstrs),
+        "nested_calls_accepted": sum(1 for s_ in nsumm if s_["accepted"]), "nested_calls_with_replacement": sum(1 for s_ in nsumm if any(c.startswith("ARepl") for c in s_["call"])),
+        "samples": summ[:1] + nsumm[:1]})
     v.assumptions = ["sklearn.clone / copy.deepcopy / pickle are third-party: exercised, not modelled",
-                     "nested (module__name) routing of the compound estimators is checked on the implementation only"]
+                     "nested (module__name) routing: modelled (Params_nested.v) and tied by correspondence for DualVigilanceART and BARTMAP over Fuzzy ART; the other compound estimators on the implementation only"]
     sys.exit(v.finish(level="proof"))
 
 
